@@ -845,6 +845,15 @@ class SymCtx:
             if NONFINITE['raise']:
                 raise ZeroDivisionError('division by zero: the real code '
                                         'would produce inf / NaN here')
+            # a reachable x/0: reported (kind 'nonfinite') and confirmed
+            # or dismissed by the replay on the real code - the code may
+            # legitimately mask the inf / NaN afterwards, in which case no
+            # obligation fails there and the path is simply outside the
+            # real-number model
+            if self._check() == z3.sat:     # model of *this* path
+                self._finding('nonfinite', 'a division by zero is '
+                              'reachable: the real code computes with '
+                              'inf / NaN from here on', self._model())
             raise PathAbort('division by zero (nonfinite)')
         a = z3.simplify(a)
         key = ('div', a.get_id(), b.get_id())
@@ -866,6 +875,10 @@ class SymCtx:
             if n * n == f.numerator and d * d == f.denominator:
                 return SReal(z3.RealVal(f"{n}/{d}"))
         elif self.branch(x < 0):
+            if self._check() == z3.sat:
+                self._finding('nonfinite', 'the square root of a negative '
+                              'number is reachable: the real code computes '
+                              'with NaN from here on', self._model())
             raise PathAbort('sqrt of negative (nonfinite)')
         key = ('sqrt', x.get_id())
         hit = self._memo.get(key)
